@@ -111,6 +111,28 @@ func checkC12(c *Ctx) {
 			"refund mint guarded by sender == entry.Sender", "the refund mint is reachable without the test that the requesting sender equals the entry's recorded Sender")
 		// ---- authorised: entry from the unbatched pool only, selected by id -------------
 		okPool, okID := false, false
+		poolOnly := func(callee *ssa.Function) bool {
+			iterPool, other := false, false
+			for g := range p.ReachCS(callee) {
+				for _, op := range p.StoreOps(g) {
+					if op.IsIter() || op.Op == "Get" {
+						if c.prefixName(op) == "SendToExternalKey" {
+							iterPool = true
+						} else if c.prefixName(op) != "" {
+							other = true
+						}
+					}
+				}
+			}
+			return iterPool && !other
+		}
+		isIDParam := func(v ssa.Value) bool {
+			if v == ssa.Value(idPar) {
+				return true
+			}
+			lv := p.Leaves(v, ana.PVOpt{})
+			return len(lv.List()) == 1 && paramLeaf(lv, f, idPar.Name())
+		}
 		if entryVal != nil {
 			l := p.Leaves(entryVal, ana.PVOpt{Opaque: func(d ana.CalleeDesc) bool { return true }})
 			for lab, vals := range l.Vals {
@@ -122,23 +144,7 @@ func checkC12(c *Ctx) {
 					if !ok {
 						continue
 					}
-					callee := call.Call.StaticCallee()
-					if callee == nil {
-						continue
-					}
-					iterPool, other := false, false
-					for g := range p.ReachCS(callee) {
-						for _, op := range p.StoreOps(g) {
-							if op.IsIter() || op.Op == "Get" {
-								if c.prefixName(op) == "SendToExternalKey" {
-									iterPool = true
-								} else if c.prefixName(op) != "" {
-									other = true
-								}
-							}
-						}
-					}
-					if iterPool && !other {
+					if callee := call.Call.StaticCallee(); callee != nil && poolOnly(callee) {
 						okPool = true
 					}
 				}
@@ -150,7 +156,7 @@ func checkC12(c *Ctx) {
 				}
 				for _, pr := range [][2]ssa.Value{{x, y}, {y, x}} {
 					la := p.Leaves(pr[0], ana.PVOpt{})
-					if la.HasField("SendToExternal.Id") && pr[1] == ssa.Value(idPar) {
+					if la.HasField("SendToExternal.Id") && isIDParam(pr[1]) {
 						return op == token.EQL, true
 					}
 				}
@@ -168,6 +174,36 @@ func checkC12(c *Ctx) {
 						n++
 						if !ana.Guarded(st, idEq) {
 							all = false
+						}
+					}
+					// the variable is assigned inside a callback handed to an iteration function
+					mc, ok := ref.(*ssa.MakeClosure)
+					if !ok {
+						continue
+					}
+					cf, _ := mc.Fn.(*ssa.Function)
+					if cf == nil {
+						continue
+					}
+					for bi, bnd := range mc.Bindings {
+						if bnd != ssa.Value(x) || bi >= len(cf.FreeVars) {
+							continue
+						}
+						fv := cf.FreeVars[bi]
+						for _, fr := range *fv.Referrers() {
+							if st, ok := fr.(*ssa.Store); ok && st.Addr == ssa.Value(fv) && !ana.IsNilConst(st.Val) {
+								n++
+								if _, isPar := st.Val.(*ssa.Parameter); !isPar || !ana.Guarded(st, idEq) {
+									all = false
+								}
+							}
+						}
+					}
+					for _, mr := range *mc.Referrers() {
+						if call, ok := mr.(*ssa.Call); ok {
+							if callee := call.Call.StaticCallee(); callee != nil && poolOnly(callee) {
+								okPool = true
+							}
 						}
 					}
 				}
@@ -463,6 +499,38 @@ func checkC12(c *Ctx) {
 		if nSweep == 0 {
 			r.Undecided("C12.expiry", fname(f), "-", "no guarded expiry sweep call found")
 		}
+	}
+	// the age of a transfer is fixed when it is created: its CreatedAt is written by the pool insert only
+	// (a batch that is dissolved puts its transfers back with the age they have)
+	nCA := 0
+	for _, f := range sortedFuncs(c.LiveReach()) {
+		if p.L.IsGenerated(f.Pos()) || !p.IsModule(f) {
+			continue
+		}
+		ana.Instrs(f, func(in ssa.Instruction) {
+			st, ok := in.(*ssa.Store)
+			if !ok {
+				return
+			}
+			fa, ok := st.Addr.(*ssa.FieldAddr)
+			if !ok {
+				return
+			}
+			n := ana.NamedOf(fa.X.Type())
+			sT := structOf(fa.X.Type())
+			if n == nil || sT == nil || n.Obj().Name() != "SendToExternal" || sT.Field(fa.Field).Name() != "CreatedAt" {
+				return
+			}
+			nCA++
+			o := ana.Outermost(f)
+			okIns := hasEff(c.Effects(o), "bank", "BurnCoins", "") || c.isGenesisImport(o)
+			_, fresh := fa.X.(*ssa.Alloc)
+			r.Check(okIns && fresh, "C12.expiry", "created-at:"+fname(f), c.pos(st), "CreatedAt is set where the pool entry is created",
+				fname(f)+" rewrites the CreatedAt of an existing transfer: its age starts again, so the expiry sweep (CreatedAt + timeout before block time) no longer refunds it when the timeout has passed since the request")
+		})
+	}
+	if nCA == 0 {
+		r.Undecided("C12.expiry", "created-at", "-", "no assignment of SendToExternal.CreatedAt found")
 	}
 }
 
